@@ -54,7 +54,7 @@ class C16Machine(Machine):
            "target_column_last", "str_path", "pd_target_column", "later_row_also_fails",
            "result_missing_empty_cell", "target_cell_changed", "pd_missing_is_na", "pd_strict_raised",
            "zero_rows", "fault_in_other_column", "ambiguous_mode_converted_cell", "file_larger_than_8k", "table_ge_40_rows",
-           "eol_crlf", "eol_lf", "eol_mixed", "no_final_line_terminator", "sep_explicit_tab", "relative_path", "pd_target_is_source", "pd_int_labels", "pd_int_labels_not_positions", "file_flags_left_to_defaults", "pd_flags_left_to_defaults", "cell_convertible_only_after_extension", "fault_in_header", "cell_with_unicode_line_boundary",
+           "eol_crlf", "eol_lf", "eol_mixed", "no_final_line_terminator", "sep_explicit_tab", "relative_path", "pd_target_is_source", "pd_dtype_object", "pd_dtype_string", "pd_dtype_category", "pd_int_labels", "pd_int_labels_not_positions", "file_flags_left_to_defaults", "pd_flags_left_to_defaults", "cell_convertible_only_after_extension", "fault_in_header", "cell_with_unicode_line_boundary",
            "pd_index_custom", "pd_index_reversed", "pd_index_offset", "pd_index_duplicated", "pd_index_sliced"]
     )
 
@@ -309,6 +309,7 @@ class C16Machine(Machine):
             pd_ops.append({"op": "pd", "func": pf, "names": names, "rows": prow, "column": names[col],
                          "target_column": target, "strict": rng.random() < 0.3, "passthrough": rng.random() < 0.5,
                          "ambiguous": pamb, "omit_defaults": rng.random() < 0.5,
+                         "dtype": rng.choice(["default", "default", "object", "string", "category"]),
                          "index": rng.choice(["range", "range", "range", "custom", "reversed", "offset", "duplicated", "sliced"])})
         plan.extend(pd_ops)
         if cfg.get("extend") and self.conv.records:
@@ -653,6 +654,12 @@ class C16Machine(Machine):
             df = pd.DataFrame([list(r) for r in rows], columns=names, index=index)
         if ik != "range":
             self.probe("pd_index_" + ik)
+        dt = op.get("dtype", "default")
+        if dt != "default" and len(rows):
+            # the same string cells under the other dtypes a column of strings comes in: object (every
+            # pandas before 3), the nullable "string" dtype, and category (read_csv(dtype="category"))
+            df = df.astype({c: dt for c in names})
+            self.probe("pd_dtype_" + dt)
         orig = df.copy(deep=True)
         scalar = scalar_for(conv, func, amb if func in ("pd_compress", "pd_expand") else False)
         expected = []
